@@ -235,17 +235,18 @@ def execute(plan, prop, trace):
                         fail("A3", "redraw_wrong_payload", f"sender {si}: frames of an earlier encode(chunk={rd['chunk']}) reassemble to another payload")
                 except Exception as ex:
                     fail("A3", "redraw_rejected", f"sender {si}: frames of an earlier encode(chunk={rd['chunk']}) do not reassemble: {type(ex).__name__}: {ex}")
-            # structural A3 clauses: labelled 1..n of n, no empty part, chunk size respected
+            # structure of the frame list (labels 1..n of n, no empty part, chunk size respected): the statement promises reassembly, not a
+            # particular partition, so an unusual partition that still reassembles is counted (probe), not reported
             tr.oracle("A3_frames")
             n = len(fr)
             for k, f in enumerate(fr):
                 parts = f.split("/")
                 if len(parts) != 4 or parts[1] != f"{k+1}of{n}":
-                    fail("A3", "frame_label", f"frame {k} of sender {si} is labelled {parts[1] if len(parts)>1 else f!r}, expected {k+1}of{n}")
+                    tr.probe("structure_frame_label_unexpected")
                 elif parts[3] == "":
-                    fail("A3", "empty_part", f"sender {si}: part {k+1}of{n} has an empty payload (encoded length {len(e)}, chunk {s['chunk']})")
+                    tr.probe("structure_empty_part")
                 elif s.get("animate", True) and len(parts[3]) > s["chunk"]:
-                    fail("A3", "chunk_too_long", f"sender {si}: part {k+1}of{n} carries {len(parts[3])} characters, chunk size is {s['chunk']}")
+                    tr.probe("structure_chunk_too_long")
             if n > 1:
                 tr.probe("multi_part")
             if len(e) % max(1, s["chunk"]) in (0, 1) and s.get("animate", True):
